@@ -21,6 +21,9 @@ JOBS = [
     dict(job=('specs.tr_small', 'record_data', {}), props=['C04', 'C05', 'C09']),
     dict(job=('specs.tr_small', 'play_data', {}), props=['C02', 'C09', 'C11']),
     dict(job=('specs.tr_small', 'reset_active_recording', {}), props=['C05', 'C09', 'C17', 'C03']),
+    dict(job=('specs.tr_small', 'factories', {}), props=['C01', 'C02', 'C03', 'C04', 'C06']),
+    dict(job=('specs.tr_small', 'recording_params_unit', {}), props=['C17']),
+    dict(job=('specs.tr_small', 'misc_recorder', {}), props=['C04', 'C09', 'C02']),
     # ---- playback/interception/files
     dict(job=('specs.files', 'get_file_path', {}), props=['C20']),
     dict(job=('specs.files', 'intercept_file', {}), props=['C20']),
@@ -58,6 +61,7 @@ JOBS = [
     dict(job=('specs.cassettes', 'file_roundtrip', {}), props=['C07', 'C11', 'C05']),
     dict(job=('specs.cassettes', 'file_iter', {}), props=['C10', 'C19']),
     dict(job=('specs.cassettes', 'file_create', {}), props=['C07', 'C10', 'C04']),
+    dict(job=('specs.cassettes', 'base_cassette_misc', {}), props=['C05', 'C04', 'C17', 'C11', 'C07', 'C15']),
     # ---- S3 cassette and facade
     dict(job=('specs.s3', 's3_save_get', {}), props=['C07', 'C11', 'C15', 'C17', 'C05']),
     dict(job=('specs.s3', 's3_close', {}), props=['C15']),
@@ -65,6 +69,7 @@ JOBS = [
     dict(job=('specs.s3', 's3_should_sample', {}), props=['C17']),
     dict(job=('specs.s3', 's3_init', {}), props=['C15', 'C07', 'C10', 'C17']),
     dict(job=('specs.s3', 's3_category', {}), props=['C10', 'C19', 'C17']),
+    dict(job=('specs.s3', 's3_storage_class', {}), props=['C15', 'C07']),
     dict(job=('specs.s3', 's3_id_prefixes', {}), props=['C16', 'C10']),
     dict(job=('specs.s3', 's3_prefix_iterators', {}), props=['C10', 'C16', 'C14']),
     dict(job=('specs.s3', 'facade_units', {}), props=['C15', 'C07']),
